@@ -199,6 +199,11 @@ impl<'a> ReplyVariants<'a> for MsgVariants<'a, GenericParam> {
                     .iter_mut()
                     .find(|existing_data| existing_data.reply_id == reply_id)
                 {
+                    Some(existing_data) if existing_data.handler_id != handler_id => {
+                        emit_error!(handler_id.span(), "Reply handler name clashes with another handler name.";
+                            note = existing_data.handler_id.span() => format!("Handlers `{}` and `{}` would share the reply id `{}`.", existing_data.handler_id, handler_id, reply_id);
+                        )
+                    }
                     Some(existing_data)
                         if existing_data
                             .handlers
